@@ -76,7 +76,7 @@ CLAIMED["C35"] = (
     "Floats as exact reals; patterns, formats and index sets are enumerated / seeded, not symbolic (shapes up to 3x3 "
     "quick, 4x4 thorough; up to 3 blocks; count vectors up to length 4); the INPUT compressed storage is canonical "
     "(sorted, duplicate-free) - unsorted inputs, sparse_dia_from_sparse_blocks, expand_indices_nd and "
-    "optimized_compressed_storage are outside; merge_matrices with increasing lines only.",
+    "optimized_compressed_storage are outside.",
     "symbolic execution of the sparse utilities on z3 terms vs dense numpy reference + SMT",
     "DESIGN.md section 10.8 C35",
 )
